@@ -186,7 +186,7 @@ class RandomChoice(
                 f'The size ({p.size}) of the probabilities array must match '
                 f'the number of items ({n_items})!')
 
-        if np.any(p < 0):
+        if not np.all(p >= 0):
             raise ValueError(
                 'The probabilities must be greater or equal zero!')
 
